@@ -201,6 +201,8 @@ func checkErrPath(c errCase) *vk.Failure {
 		}
 		if i, ok := sameSnap(before, after); !ok {
 			F("state-changed-by-"+c.Bad, "after the recovered panic (%s) the distribution differs from what it was before the call (observable %d: %v -> %v; observables are Len, Mean, Entropy, then Prob/LogProb/CDF/CDF(+.5) for k=-1..n, then 64 draws)", res.Text, i, before[min(max(i, 0), len(before)-1)], after[min(max(i, 0), len(after)-1)])
+			// what follows would only restate the same corruption under other keys
+			return fs.pick(c.S1)
 		}
 		// the law of the current (old) weights
 		tot, sum := 0.0, 0.0
